@@ -280,10 +280,10 @@ func (e *Engine) store(st *State, p PtrVal, v Val) {
 		st.log.note(st, p, true)
 	}
 	if len(p.path) == 0 {
-		st.hset(p.obj, v)
+		st.heap.set(p.obj, v)
 		return
 	}
-	st.hset(p.obj, navSet(st.hget(p.obj), p.path, v))
+	st.heap.set(p.obj, navSet(st.hget(p.obj), p.path, v))
 }
 
 // idxVal widens an index / length operand to 64 bits according to the
@@ -1271,6 +1271,9 @@ func (e *Engine) exec(st *State, fr *Frame, in ssa.Instruction) bool {
 			it := IterVal{}
 			if x.obj != 0 {
 				mo := st.hget(x.obj).(MapObj)
+				if st.log != nil {
+					st.log.note(st, PtrVal{obj: x.obj}, false)
+				}
 				it.keys, it.vals = e.mapOrder(st, mo)
 			}
 			fr.env[in] = it
@@ -1545,6 +1548,9 @@ func (e *Engine) mapLookup(st *State, mp MapVal, k Val) (Val, bool) {
 		return nil, false
 	}
 	mo := st.hget(mp.obj).(MapObj)
+	if st.log != nil {
+		st.log.note(st, PtrVal{obj: mp.obj}, false)
+	}
 	if ck, ok := concKey(k); ok && len(mo.idx) == len(mo.keys) {
 		if i, ok := mo.idx[ck]; ok {
 			return mo.vals[i], true
